@@ -384,28 +384,11 @@ func evalC03(sc *Scenario, sim *Sim) ([]Violation, bool, string) {
 		}
 		base := run(sb, sc.World, "", simrt.Plan{}, nil, false)
 		agree := true
-		// repeatability under one and the same schedule: anything that differs here is nondeterminism outside the seams
-		// (goroutines, pointers, process ids ...), which the simulator cannot steer but can observe
-		repeats := 1
-		if sc.Violation != nil && sc.Violation.Oracle == "repeatability" {
-			repeats = 60 // replay of such a finding: try harder to see it again
-		}
-		for k := 0; k < repeats && agree; k++ {
-			again := run(sb, sc.World, "", simrt.Plan{}, nil, false)
-			if kind, detail := describeDiff(base, again); kind != "" {
-				agree = false
-				viol = append(viol, Violation{Prop: "C03", Oracle: "repeatability",
-					Sig:    fmt.Sprintf("C03/%s/%s/uncontrolled-nondeterminism", c.Name, kind),
-					Msg:    fmt.Sprintf("`%s` gives different results in two runs under the identical schedule, clock and environment: a source of nondeterminism outside the seams", strings.Join(c.Argv, " ")),
-					Detail: detail})
-			}
-		}
-		if p.Race && agree && !isFile(filepath.Join(sim.BuildDir, "crs-race")) {
-			sim.Stats.probe("race-detector-build-unavailable")
-		} else if p.Race && agree {
-			tries := 1
-			if sc.Violation != nil && sc.Violation.Oracle == "race-detector" {
-				tries = 5
+		// raceCheck runs the command under the race detector; it returns a violation when two goroutines touch the same memory unsynchronised
+		raceCheck := func(tries int) *Violation {
+			if !isFile(filepath.Join(sim.BuildDir, "crs-race")) {
+				sim.Stats.probe("race-detector-build-unavailable")
+				return nil
 			}
 			for k := 0; k < tries; k++ {
 				sb.Restore(sc.World)
@@ -417,13 +400,44 @@ func evalC03(sc *Scenario, sim *Sim) ([]Violation, bool, string) {
 				rr := sb.Run(st)
 				sim.Stats.probe("race-detector-run")
 				if bytes.Contains(rr.Stderr, []byte("WARNING: DATA RACE")) || bytes.Contains(rr.Stderr, []byte("fatal error: concurrent map")) {
-					agree = false
-					viol = append(viol, Violation{Prop: "C03", Oracle: "race-detector",
+					return &Violation{Prop: "C03", Oracle: "race-detector",
 						Sig:    fmt.Sprintf("C03/%s/data-race/uncontrolled-nondeterminism", c.Name),
 						Msg:    fmt.Sprintf("`%s` runs goroutines that touch the same memory without synchronisation (race detector): its result depends on thread scheduling, a source of nondeterminism outside the seams", strings.Join(c.Argv, " ")),
-						Detail: clip2(rr.Stderr, 3000)})
+						Detail: clip2(rr.Stderr, 3000)}
+				}
+			}
+			return nil
+		}
+		replayingRace := sc.Violation != nil && sc.Violation.Oracle == "race-detector"
+		if p.Race || replayingRace {
+			tries := 1
+			if replayingRace {
+				tries = 5
+			}
+			if v := raceCheck(tries); v != nil {
+				viol = append(viol, *v)
+				continue
+			}
+		}
+		// repeatability under one and the same schedule: anything that differs here is nondeterminism outside the seams
+		// (goroutines, pointers, process ids ...), which the simulator cannot steer but can observe
+		repeats := 1
+		if sc.Violation != nil && sc.Violation.Oracle == "repeatability" {
+			repeats = 60 // replay of such a finding: try harder to see it again
+		}
+		for k := 0; k < repeats && agree; k++ {
+			again := run(sb, sc.World, "", simrt.Plan{}, nil, false)
+			if kind, detail := describeDiff(base, again); kind != "" {
+				agree = false
+				// unsynchronised goroutines explain such a difference and, unlike the difference itself, show again on replay
+				if v := raceCheck(3); v != nil {
+					viol = append(viol, *v)
 					break
 				}
+				viol = append(viol, Violation{Prop: "C03", Oracle: "repeatability",
+					Sig:    fmt.Sprintf("C03/%s/%s/uncontrolled-nondeterminism", c.Name, kind),
+					Msg:    fmt.Sprintf("`%s` gives different results in two runs under the identical schedule, clock and environment: a source of nondeterminism outside the seams", strings.Join(c.Argv, " ")),
+					Detail: detail})
 			}
 		}
 		for i, a := range p.Alts {
@@ -459,10 +473,19 @@ func evalC03(sc *Scenario, sim *Sim) ([]Violation, bool, string) {
 				k1, _ := describeDiff(out, again)
 				k2, _ := describeDiff(base, base2)
 				if k1 != "" || k2 != "" {
+					if v := raceCheck(3); v != nil {
+						viol = append(viol, *v)
+						break
+					}
 					viol = append(viol, Violation{Prop: "C03", Oracle: "repeatability",
 						Sig:    fmt.Sprintf("C03/%s/%s/uncontrolled-nondeterminism", c.Name, kind),
 						Msg:    fmt.Sprintf("`%s` gives different results in two runs under the identical schedule, clock and environment: a source of nondeterminism outside the seams", strings.Join(c.Argv, " ")),
 						Detail: detail})
+					break
+				}
+				// a difference that happens to repeat once can still come from racing goroutines rather than from the schedule
+				if v := raceCheck(2); v != nil {
+					viol = append(viol, *v)
 					break
 				}
 				// attribution: which of the permuted sites is sufficient on its own?
@@ -551,6 +574,11 @@ func evalC03(sc *Scenario, sim *Sim) ([]Violation, bool, string) {
 							Sig:    fmt.Sprintf("C03/%s/%s/uncontrolled-nondeterminism", c.Name, kind),
 							Msg:    fmt.Sprintf("`%s` gives different results in repeated runs under the identical schedule: a source of nondeterminism outside the seams", strings.Join(c.Argv, " ")),
 							Detail: detail})
+						agree = false
+						break
+					}
+					if v := raceCheck(3); v != nil {
+						viol = append(viol, *v)
 						agree = false
 						break
 					}
